@@ -10,7 +10,8 @@ Three parts (see DESIGN.md §6 C02):
      LAYOUT into a real model text -> `casbin.Enforcer` -> `enforce` / `enforce_ex` on single- and multi-rule
      policies.  Any difference is a violation of the property (layout dependence is its heart).
 Inputs on which the textual approach is known to be limited (operators or `p.`-like text inside string
-literals, blanks inside `eval( … )`) run in separate streams with their own signatures."""
+literals) run in a separate stream with its own signature.  Blanks between `eval` and `(` and around its
+argument are ordinary layout (F01c, repaired): `eval` `(` name `)` are four tokens with gaps like any others."""
 import hashlib
 import itertools
 import logging
@@ -152,7 +153,7 @@ def canon_char(op, ans):
 # ------------------------------------------------------------------------------------------------
 # (a) char-level suites
 
-EVAL_PIECES = ["eval(", "eval", "e", "a", ")", "(", " ", "_", "&&"]
+EVAL_PIECES = ["eval(", "eval", "e", "a", ")", "(", " ", "\t", "_", "&&"]
 CFG_PIECES = ["m", "=", " ", "\\", "\n", "#", ";", "[s]", "a", "]"]
 RULES = ["x y", "(z)"]
 
@@ -330,8 +331,10 @@ def tokens(e, minp=0):
             out += tokens(x, 1)
         return out + [(")", False, False, "o")]
     if k == "eval":
-        return [("eval(" + e[1] + ")", True, False, "w")]
-    if k == "evalblank":
+        # four tokens: the layout decides the white space between `eval` and `(` and around the argument
+        return [("eval", True, True, "w"), ("(", False, False, "o"), (e[1], True, True, "w"), (")", False, False, "o")]
+    if k == "evalform":
+        # a fixed spelling of the call (always exercised, whatever the sampled layouts are)
         return [(e[2].replace("X", e[1]), True, False, "w")]
     if k == "paren":
         return [("(", False, False, "o")] + tokens(e[1], 0) + [(")", False, False, "o")]
@@ -399,6 +402,9 @@ import re as _re
 _REF = _re.compile(r"^([pr])(\d*)\.([A-Za-z_][A-Za-z_0-9]*)((?:\.[A-Za-z_][A-Za-z_0-9]*)*)$")
 
 
+_EVALFORM = _re.compile(r"^eval([ \t]*)\(([ \t]*)([^() \t]+)([ \t]*)\)$")
+
+
 def tok_items(toks, gaps):
     """harness tokens + blank-only gaps -> list of encoded `Tok` items"""
     items = []
@@ -407,11 +413,11 @@ def tok_items(toks, gaps):
         items.append("|".join([kind] + [enc_str(x) for x in parts] + [enc_str(gap)]))
 
     for (text, _lw, _rw, kind), g in zip(toks, gaps):
-        if text.startswith("eval(") and text.endswith(")"):
-            add("word", "eval")
-            add("other", "(")
-            sub = tok_items([(text[5:-1], True, True, "w")], [""])
-            items.extend(sub)
+        mf = _EVALFORM.match(text)
+        if mf:
+            add("word", "eval", gap=mf.group(1))
+            add("other", "(", gap=mf.group(2))
+            items.extend(tok_items([(mf.group(3), True, True, "w")], [mf.group(4)]))
             add("other", ")", gap=g)
             continue
         m = _REF.match(text) if kind == "w" else None
@@ -523,7 +529,7 @@ def from_json(v):
 def subst_eval(e, rule_asts):
     """replace eval(p.f) nodes by the rule's sub-expression (what the property says eval means)"""
     k = e[0]
-    if k in ("eval", "evalblank"):
+    if k in ("eval", "evalform"):
         return ("paren", rule_asts[e[1]])
     if k in ("attr",):
         return (k, subst_eval(e[1], rule_asts), e[2])
@@ -876,14 +882,11 @@ def expected_multi(shape, verdicts, rules):
 
 
 SIG_F01B = "F01b:text-inside-string-literal-rewritten"
-SIG_F01C = "F01c:blank-inside-eval-call"
 
 
 def sig_of(stream, shape, layout, kind):
     if stream == "string-literal":
         return SIG_F01B
-    if stream == "eval-blank":
-        return SIG_F01C
     return f"{stream}:{kind}"
 
 
@@ -1062,12 +1065,13 @@ def build_items(ctx, deep):
             alist.append(B("or", B("eq", R("r.sub"), lit), B("ne", R("r.obj"), lit)))
         reqs = reqs[:2] + [[x[2][3][1], "o", "read"] for x in alist[:3]]
         items.append(dict(shape="acl", rules=rules, groups=groups, reqs=reqs, asts=[{"ast": a, "rules": rules} for a in alist], layouts=["single"], seed=r2.getrandbits(32), stream="string-literal"))
-    # (4) blanks inside / before the parentheses of eval() (F01c)
+    # (4) every spelling of the eval() call, in the main stream: blanks / TABs between `eval` and `(` and around the argument
     r2 = random.Random(rng.getrandbits(32))
     shape = SHAPES["eval"]
     rules, groups, reqs = gen_universe(shape, r2)
-    alist = [AND(("evalblank", "p.sub_rule", form), B("eq", ("attr", R("r.obj"), "name"), R("p.obj"))) for form in ("eval( X )", "eval (X)", "eval(X )")]
-    items.append(dict(shape="eval", rules=rules, groups=groups, reqs=reqs[:3], asts=[make_rules_for_ast(shape, a, rules, r2, ["single"]) for a in alist], layouts=["single"], seed=r2.getrandbits(32), stream="eval-blank"))
+    forms = ("eval(X)", "eval( X )", "eval (X)", "eval(X )", "eval( X)", "eval  (  X  )", "eval\t(\tX\t)")
+    alist = [AND(("evalform", "p.sub_rule", form), B("or", B("eq", ("attr", R("r.obj"), "name"), R("p.obj")), ("evalform", "p.rule2", forms[(i + 3) % len(forms)]))) for i, form in enumerate(forms)]
+    items.append(dict(shape="eval", rules=rules, groups=groups, reqs=reqs[:3], asts=[make_rules_for_ast(shape, a, rules, r2, ["single"]) for a in alist], layouts=["tight", "single"], seed=r2.getrandbits(32), stream="main"))
     return items
 
 
